@@ -49,7 +49,9 @@
 (*              in a dry run: C19_mc_stub.cfg                              *)
 (*                                                                         *)
 (* Deliberate deviations: contents are ideal (manifest and blob ids, no    *)
-(* bytes); a registry repository exists once it holds an object; paging,   *)
+(* bytes, no media types: the generator's dimensions mt / feat / tmo / cmd *)
+(* are realised by the driver only); a registry repository exists once it  *)
+(* holds an object, a layout can be listed once it has an index; paging,   *)
 (* authentication, retries, referrers, the per-script timeout (a blocked   *)
 (* Acquire is a deadlock here; the real one ends with the timeout) and     *)
 (* the tar file formats are left out; a foreach governs one statement      *)
@@ -82,8 +84,12 @@ TagNames == {"ix", "new", "v1"}            \* the tag "none" exists nowhere, eve
 TagOrder == <<"ix", "new", "v1">>          \* listing order (sorted)
 None == "-"
 NoTags == [t \in TagNames |-> None]
+\* idx: the layout directory has an index.json (a layout that only ever received blobs has none
+\* and cannot be listed)
 MkWorld(tg) == [tag |-> tg,
-                obj |-> [l \in Locs |-> UNION {Closure(tg[l][t]) : t \in {u \in TagNames : tg[l][u] # None}}]]
+                obj |-> [l \in Locs |-> UNION {Closure(tg[l][t]) : t \in {u \in TagNames : tg[l][u] # None}}],
+                idx |-> \E t \in TagNames : tg["lay"][t] # None]
+Indexed(w, l) == [w EXCEPT !.idx = @ \/ l = "lay"]
 WorldA == MkWorld([a1 |-> [NoTags EXCEPT !.v1 = "M1", !.ix = "IX"], a2 |-> NoTags,
                    b1 |-> [NoTags EXCEPT !.v1 = "M2"], lay |-> [NoTags EXCEPT !.v1 = "M1", !.ix = "IX"]])
 WorldB == MkWorld([a1 |-> [NoTags EXCEPT !.v1 = "M1", !.ix = "IX"], a2 |-> [NoTags EXCEPT !.v1 = "M1"],
@@ -139,7 +145,7 @@ RepoLs(st, w, e) ==
 
 TagLs(st, w, e) ==
   LET r == RefArg(st.l1, st.t1, e) IN
-  IF ~Valid(r) \/ ~Exists(w, r.loc) THEN Fail(w, e) ELSE Ok(Join(TagSeq(w, r.loc)), w, e)
+  IF ~Valid(r) \/ ~Exists(w, r.loc) \/ (r.loc = "lay" /\ ~w.idx) THEN Fail(w, e) ELSE Ok(Join(TagSeq(w, r.loc)), w, e)
 
 ManifestGet(st, w, e) ==
   LET r == IF st.op \in {"m:get", "m:head"} THEN RefArg("$m", "", e) ELSE RefArg(st.l1, st.t1, e)
@@ -199,8 +205,8 @@ ManifestPut(st, w, e, dry) ==
       id == IF e.m.head THEN "HM" ELSE e.m.id IN
   IF e.m.id = None \/ ~Valid(r) THEN Fail(w, e)
   ELSE IF Skip(st.op, dry) THEN Ok("done", w, e)
-  ELSE Ok("done", [w EXCEPT !.obj[r.loc] = @ \cup {id},
-                            !.tag[r.loc] = IF r.tag \in TagNames THEN [@ EXCEPT ![r.tag] = id] ELSE @], e)
+  ELSE Ok("done", Indexed([w EXCEPT !.obj[r.loc] = @ \cup {id},
+                                    !.tag[r.loc] = IF r.tag \in TagNames THEN [@ EXCEPT ![r.tag] = id] ELSE @], r.loc), e)
 
 \* content: a string (l2 = "str"), a blob object ($b; only one from blob.get carries a reader, and
 \* the reader is used up by the push) or a config object ($c)
@@ -239,8 +245,8 @@ CopyIn(st, w, e, dry) ==
       id == Lookup(w, src) IN
   IF Skip(st.op, dry) THEN Ok("done", w, e)
   ELSE IF id = None THEN Fail(w, e)
-  ELSE Ok("done", [w EXCEPT !.obj[tgt.loc] = @ \cup (IF st.op = "image.copy+pf" THEN Closure(id) \ Closure("M2") ELSE Closure(id)),
-                            !.tag[tgt.loc] = IF tgt.tag \in TagNames THEN [@ EXCEPT ![tgt.tag] = id] ELSE @], e)
+  ELSE Ok("done", Indexed([w EXCEPT !.obj[tgt.loc] = @ \cup (IF st.op = "image.copy+pf" THEN Closure(id) \ Closure("M2") ELSE Closure(id)),
+                                    !.tag[tgt.loc] = IF tgt.tag \in TagNames THEN [@ EXCEPT ![tgt.tag] = id] ELSE @], tgt.loc), e)
 
 ImportPre(st, w, e) == IF Valid(RefArg(st.l1, st.t1, e)) THEN Ok("", w, e) ELSE Fail(w, e)
 ImportIn(st, w, e, dry) ==
@@ -248,8 +254,8 @@ ImportIn(st, w, e, dry) ==
   IF st.l2 = "missing" THEN Fail(w, e)            \* os.Open fails, also in a dry run
   ELSE IF Skip(st.op, dry) THEN Ok("done", w, e)
   ELSE IF st.l2 # "good" THEN Fail(w, e)          \* not a tar
-  ELSE Ok("done", [w EXCEPT !.obj[tgt.loc] = @ \cup Closure("M1"),
-                            !.tag[tgt.loc] = IF tgt.tag \in TagNames THEN [@ EXCEPT ![tgt.tag] = "M1"] ELSE @], e)
+  ELSE Ok("done", Indexed([w EXCEPT !.obj[tgt.loc] = @ \cup Closure("M1"),
+                                    !.tag[tgt.loc] = IF tgt.tag \in TagNames THEN [@ EXCEPT ![tgt.tag] = "M1"] ELSE @], tgt.loc), e)
 
 ExportPre(st, w, e) == ImportPre(st, w, e)
 \* writes a local tar file (tar), never the world; the file is created before the image is read
